@@ -22,7 +22,7 @@ def rand_packet(rng):
         mt, pt = rng.choice([(1, 1), (1, 2), (1, 3), (1, 8), (3, 1), (1, 255), (2, 5)])
         base.update({'mt': mt, 'pt': pt, 'pl': []})
         return base
-    p = wire.packet(rng, rng.choice(wire.KINDS), rng.choice([8, 20, 40, 300]))
+    p = wire.packet(rng, rng.choice(wire.KINDS), rng.choice([1, 1, 2, 8, 20, 40, 300]))
     base.update({'mt': p['mt'], 'pt': p['pt'], 'pl': p['pl']})
     return base
 
